@@ -6,6 +6,7 @@ import (
 
 	"github.com/relab/gorums"
 	"google.golang.org/grpc/backoff"
+	"google.golang.org/grpc/metadata"
 
 	"verif/harness/gen/puppet"
 	"verif/harness/puppetsrv"
@@ -464,6 +465,66 @@ func scenRestart(tr *vtrace.Tracer, kind string) error {
 	return nil
 }
 
+// C10: every new connection carries the manager's general and per-node
+// metadata and triggers the server's connect callback once - also after a
+// crash/restart and for a node that was down at creation.
+func scenMetadata(tr *vtrace.Tracer, kind string) error {
+	l, err := newLife(tr, EnvOpts{Nodes: 2, Down: map[int]bool{2: true}, MgrOpts: []gorums.ManagerOption{
+		gorums.WithBackoff(fastBackoff),
+		gorums.WithMetadata(metadata.Pairs("v-general", "g")),
+		gorums.WithPerNodeMetadata(func(id uint32) metadata.MD { return metadata.Pairs("v-node", fmt.Sprint(id)) }),
+	}})
+	if err != nil {
+		return err
+	}
+	defer l.finish()
+	tr.Emit("MetadataExpected", 0, 0)
+	a := l.call(kind, 1, false, false)
+	l.wait(a, SyncTimeout)
+	// (a call without send-waiting returns before the server has seen the connection)
+	if !l.awaitEv(0, SyncTimeout, "HAccept", 1) {
+		return fmt.Errorf("first connection was not accepted")
+	}
+	// crash and restart node 1
+	from := tr.Len()
+	l.e.Server(1).Stop()
+	l.awaitEv(from, SyncTimeout, "ReconSleep", 1)
+	if err := l.e.Server(1).Start(); err != nil {
+		return err
+	}
+	// node 2 was down at creation: start it now
+	if err := l.e.Server(2).Start(); err != nil {
+		return err
+	}
+	for i := 0; i < 300; i++ {
+		if gorums.VerifRedialNow(l.e.Node(1).RawNode) {
+			break
+		}
+		time.Sleep(10 * time.Millisecond)
+	}
+	time.Sleep(100 * time.Millisecond)
+	for i := 0; i < 20; i++ {
+		pos := tr.Len()
+		y := l.call("QC", 2, false, false)
+		l.wait(y, SyncTimeout)
+		n := 0
+		for _, ev := range tr.Events(pos) {
+			if ev.Ev == "HStart" && ev.Tok == y.tok {
+				n++
+			}
+		}
+		if n == 2 {
+			break
+		}
+		time.Sleep(50 * time.Millisecond)
+	}
+	p := l.call("QC", 2, true, false)
+	l.wait(p, QuietT)
+	tr.Emit("MetadataDone", 0, 0)
+	l.quiescent()
+	return nil
+}
+
 // C10: a node that is down when the manager is created is used once it listens.
 func scenDownAtCreation(tr *vtrace.Tracer, kind string) error {
 	l, err := newLife(tr, EnvOpts{Nodes: 2, Down: map[int]bool{1: true}, MgrOpts: []gorums.ManagerOption{gorums.WithBackoff(fastBackoff)}})
@@ -604,6 +665,7 @@ var LifeScenarios = map[string][]LifeScenario{
 	"C10": {
 		{Name: "restart", Run: scenRestart},
 		{Name: "down-at-creation", Run: scenDownAtCreation},
+		{Name: "metadata", Run: scenMetadata},
 	},
 	"C12": {
 		{Name: "close-while-awaiting", Run: scenCloseWhileAwaiting},
